@@ -182,6 +182,10 @@ def _rows_once(case, acc, tree, labels, cls):
 
     exp = ref_rows(start, childiter, maxlevel, glyphs)
     rt = RenderTree(start, style=style, childiter=childiter, maxlevel=maxlevel)
+    # a rendering abandoned half-way (a 'break' in a search loop) must not disturb any later rendering
+    stale = iter(RenderTree(tree[0], style=style, childiter=childiter))
+    for _ in range(min(3, len(tree))):
+        next(stale, None)
     got = list(rt)
     if len(got) != len(exp):
         raise Violation("row-count", "expected %d rows got %d" % (len(exp), len(got)))
@@ -199,6 +203,9 @@ def _rows_once(case, acc, tree, labels, cls):
     shape = rendered_shape(start, childiter, maxlevel)
     if decoded != shape:
         raise Violation("decode-back", "drawing decodes to %s, rendered sub-tree is %s" % (decoded, shape))
+    # two renderings advanced alternately
+    if [(a.pre, a.fill, id(a.node)) for a, _ in zip(rt, RenderTree(tree[0], style=style))] != [(r.pre, r.fill, id(r.node)) for r in got][: len(refs.preorder(tree[0]))]:
+        raise Violation("interleaved-iteration", "rows differ when two RenderTree iterations are advanced alternately")
     # positional argument form
     pos = list(RenderTree(start, style, childiter, maxlevel))
     if [(r.pre, r.fill, id(r.node)) for r in pos] != [(r.pre, r.fill, id(r.node)) for r in got]:
